@@ -291,7 +291,9 @@ class PoseidonSponge(_Hash):
     name = "pysnark.poseidon_hash:poseidon_hash"
 
     def configs(self, tier):
-        return [dict(n=n) for n in range(0, 9 if tier == "quick" else 13)]
+        # imported="g0": the module is first imported inside a region whose guard is false (a lazy import in a branch
+        # that is not taken) and the hash is called after the region has ended: nothing of the region may stick
+        return [dict(n=n) for n in range(0, 9 if tier == "quick" else 13)] + [dict(n=n, imported="g0") for n in (0, 2, 3)]
 
     def world_setup(self, w):
         from .backend_c import _stub_world
@@ -299,8 +301,14 @@ class PoseidonSponge(_Hash):
         w.environ["PYSNARK_BACKEND"] = "zkinterface"
 
     def setup(self, c, cfg):
-        apply_mode(c, "plain")
         c.rt.backend_name = "zkinterface"
+        if cfg.get("imported") == "g0":
+            rt = c.rt
+            before = (rt.guard, rt._ignore_errors, rt.LinComb.ONE)
+            apply_mode(c, "g0")
+            c.w.import_module("pysnark.poseidon_hash")
+            rt.guard, rt._ignore_errors, rt.LinComb.ONE = before          # what restore_guard does (contract RestoreGuard)
+        apply_mode(c, "plain")
         ph = c.w.import_module("pysnark.poseidon_hash")
         self._t = ph.t
         self._calls = []
@@ -520,6 +528,11 @@ sys.path.insert(0, req["stubs"]); sys.path.insert(0, req["repo"]); sys.path.inse
 import pysnark.zkinterface.backend as be          # pre-import: the library's own selection mechanism picks it
 import pysnark.runtime as rt
 atexit._clear()
+if req.get("imported") == "g0":
+    # first import of the module inside a region whose guard is false, ended before the hash is called
+    _bak = rt.add_guard(rt.PrivVal(0))
+    import pysnark.poseidon_hash
+    rt.restore_guard(_bak)
 import pysnark.poseidon_hash as ph
 from pysnark.poseidon_constants import poseidon_constants
 from contracts.hash_c import poseidon_plain
@@ -579,7 +592,7 @@ def _sponge_replay(self, ob, cfg):
     try:
         stubs, env = make_stub_env(tmp)
         vals = [int(model.get("s_m%d" % i, 3 + 7 * i)) for i in range(int(cfg.get("n", 0)))]
-        req = dict(stubs=stubs, repo=REPO, root=ROOT, values=vals, history=cfg.get("_history"))
+        req = dict(stubs=stubs, repo=REPO, root=ROOT, values=vals, history=cfg.get("_history"), imported=cfg.get("imported"))
         json.dump(req, open(os.path.join(tmp, "req.json"), "w"))
         open(os.path.join(tmp, "probe.py"), "w").write(_SPONGE_PROBE)
         pr = subprocess.run(["python3-vt", "probe.py", "req.json", "out.json"], cwd=tmp, capture_output=True, text=True, timeout=300, env=env)
